@@ -14,6 +14,7 @@ structure State where
   down : List Nat := []     -- nodes that refuse connections (crashed but still selected)
   hangNext : List Nat := [] -- nodes whose next storage mutation performs the write and never returns
   stuck : List Nat := []    -- nodes inside a hung handler
+  partialNext : List (Nat × List Nat) := []   -- nodes whose next purge is only partly performed by the storage (positions) and fails
   fetchFail : List Nat := [] -- nodes whose storage refuses the next document read (a repairing peer's fetch fails)
   dists : List (Nat × Replication.Dist (Nat × Nat × List Nat)) := []   -- the task distributor of node i (members: (member id, node index))
   pollers : List (Nat × Replication.Poller) := []     -- the replication cycle service of node j, when started
@@ -256,8 +257,24 @@ def step (st : State) (toks : List String) : State × String :=
     | none => (st, "bad-op")
   | ["purge", j] =>
     match j.toNat? with
-    | some j => ({ st with c := purge c j }, "ok")
+    | some j =>
+      match st.partialNext.find? (·.1 == j) with
+      | none => ({ st with c := purge c j }, "ok")
+      | some (_, idxs) =>
+        -- a purge whose `remove_tombstones` removes only the tombstones at these positions (ascending key order) and fails: the
+        -- others are tombstones of the set again (`Keyspace.onPurge` with the list of what was written)
+        let c1 := touch c j
+        let n := getNode c1 j
+        let purged := (OrSwot.purgeOldDeletes n.ks.set).2
+        let sortedKeys := StoreDom.sortNat (purged.map (·.1))
+        let doneKeys := (sortedKeys.zipIdx.filter (fun p => idxs.contains p.2)).map (·.1)
+        let idxs' := (purged.zipIdx.filter (fun p => doneKeys.contains p.1.1)).map (·.2)
+        ({ st with c := setNode c1 j { n with ks := (onPurge n.ks (some idxs')).1 }, partialNext := st.partialNext.filter (·.1 ≠ j) }, "err")
     | none => (st, "bad-op")
+  | ["partialnext", j, l] =>
+    match j.toNat?, (if l == "-" then some [] else StoreDom.parseIds l) with
+    | some j, some idxs => ({ st with partialNext := (j, idxs) :: st.partialNext.filter (·.1 ≠ j) }, "ok")
+    | _, _ => (st, "bad-op")
   | ["dist-start", i] =>
     match i.toNat? with
     | some i => ({ st with dists := (i, {}) :: st.dists.filter (·.1 ≠ i) }, "ok")
